@@ -58,7 +58,7 @@ func (cs *c01Case) UnmarshalJSON(b []byte) error {
 func init() {
 	engine.Register(&engine.Check{
 		ID: "C01", Level: "exploration",
-		Rule: "every shape of the universe U (7 types x layouts XY,XYZ,XYM,XYZM,Layout(5),Layout(7) + NoLayout empties; part sizes 0..2, <=3 parts, <=3 (quick 2) polygons of <=2 rings) built by SetCoords, by New*Flat from the model's own flattening, by Push and (points) by NewPointFlatMaybeEmpty, plus Clone; special-float sweep (9 values x every ordinate position); larger structures (5..65 polygons/parts, lines of 200..2600 coordinates) in four layouts; every single-coordinate length mismatch (stride-1, stride+1, 0, nil) at every position. distinct_nontrivial = distinct (model, mode, mismatch) cases with at least one coordinate or one part Also: Clone followed by a Push on both values with parts of different sizes (both must stay well formed and read back their own parts), binary multi-geometries and collections whose member records announce another dimensionality than the outer record (every pair of XY/XYZ/XYM/XYZM, both byte orders, WKB / WKB-NaN / EWKB: a returned geometry must be well formed), and the IGC reader's error path (every single-column substitution and truncation of a B record under three I-record states: the track returned together with the error must be well formed). Round 9: every second all-present MultiPoint is built with the ends option holding no ends.",
+		Rule: "every shape of the universe U (7 types x layouts XY,XYZ,XYM,XYZM,Layout(5),Layout(7) + NoLayout empties; part sizes 0..2, <=3 parts, <=3 (quick 2) polygons of <=2 rings) built by SetCoords, by New*Flat from the model's own flattening, by Push and (points) by NewPointFlatMaybeEmpty, plus Clone; special-float sweep (9 values x every ordinate position); larger structures (5..65 polygons/parts, lines of 200..2600 coordinates) in four layouts; every single-coordinate length mismatch (stride-1, stride+1, 0, nil) at every position. distinct_nontrivial = distinct (model, mode, mismatch) cases with at least one coordinate or one part Also: Clone followed by a Push on both values with parts of different sizes (both must stay well formed and read back their own parts), binary multi-geometries and collections whose member records announce another dimensionality than the outer record (every pair of XY/XYZ/XYM/XYZM, both byte orders, WKB / WKB-NaN / EWKB: a returned geometry must be well formed), and the IGC reader's error path (every single-column substitution and truncation of a B record under three I-record states: the track returned together with the error must be well formed). Round 9: every second all-present MultiPoint is built with the ends option holding no ends. Round 10: the length-mismatch sweep for layout-less geometries of all seven types.",
 		Run:  c01Run,
 		Replay: func(c *engine.Ctx, kind string, raw json.RawMessage) {
 			cs := decodeCase[c01Case](raw)
